@@ -1693,3 +1693,62 @@ package crypto
 //@ loop 4 invariant [counts-per-key] forall(k, 0, nvisited(), 1 <= hashPerPk[k] && hashPerPk[k] <= 16777215) && forall(k, 0, vissum(), lenHashes[k] == 128)
 //@ loop 5 invariant [inner] len(lenHashes) == vissum() - len(hashesVal) + rangeindex + 1 && len(flatHashes) == 128*len(lenHashes) && forall(k, 0, len(lenHashes), lenHashes[k] == 128)
 //@ loop 5 invariant [outer-kept] len(distinctPks) == nvisited() && len(hashPerPk) == nvisited() && isum(hashPerPk, nvisited()) == vissum() && forall(k, 0, nvisited(), 1 <= hashPerPk[k] && hashPerPk[k] <= 16777215)
+
+// =============================================================================================
+// ECDSA (C11): the glue over crypto/ecdsa. Big integers are their ghost mathematical values; the assumed contracts of
+// the libraries are in /verif/contracts/trusted/ecdsa.spec.
+
+// the two algorithm contexts are set once, by the package initialiser (proved there: contract of init#1)
+//@ global p256Instance != nil && secp256k1Instance != nil && p256Instance.curve == p256c() && p256Instance.algo == ECDSAP256 && secp256k1Instance.algo == ECDSASecp256k1
+//@ global secp256k1Instance.curve != nil && curveN(secp256k1Instance.curve) == 115792089237316195423570985008687907852837564279074904382605163141518161494337 && curveBits(secp256k1Instance.curve) == 256
+
+//@ func bitsToBytes mode int props C11 C09
+//@ requires 0 <= bits && bits <= 1000000
+//@ assigns nothing
+//@ ensures result == (bits + 7) / 8
+
+//@ pred ecdsaAlgoOK(a) = a != nil && a.curve != nil && 57896044618658097711785492504343953926634992332820282019728792003956564819968 <= curveN(a.curve) && curveN(a.curve) < 115792089237316195423570985008687907853269984665640564039457584007913129639936
+//@ pred n32(b) = be32(b[0:32])
+
+//@ func (*ecdsaAlgo).signatureFormatCheck mode int props C11 C09
+//@ requires ecdsaAlgoOK(a)
+//@ assigns nothing
+//@ ensures [format] result == (len(sig) == 64 && 1 <= be32(sig[0:32]) && be32(sig[0:32]) < curveN(a.curve) && 1 <= be32(sig[32:64]) && be32(sig[32:64]) < curveN(a.curve))
+
+//@ func SignatureFormatCheck mode int props C11 C09
+//@ assigns nothing
+//@ ensures [p256] algo == ECDSAP256 ==> result1 == nil && result0 == (len(s) == 64 && 1 <= be32(s[0:32]) && be32(s[0:32]) < 115792089210356248762697446949407573529996955224135760342422259061068512044369 && 1 <= be32(s[32:64]) && be32(s[32:64]) < 115792089210356248762697446949407573529996955224135760342422259061068512044369)
+//@ ensures [secp256k1] algo == ECDSASecp256k1 ==> result1 == nil && result0 == (len(s) == 64 && 1 <= be32(s[0:32]) && be32(s[0:32]) < 115792089237316195423570985008687907852837564279074904382605163141518161494337 && 1 <= be32(s[32:64]) && be32(s[32:64]) < 115792089237316195423570985008687907852837564279074904382605163141518161494337)
+//@ ensures [other] algo != ECDSAP256 && algo != ECDSASecp256k1 ==> !result0 && iserr(result1, *invalidInputsError)
+
+//@ pred pkECDSAOK(pk) = pk != nil && ecdsaAlgoOK(pk.alg) && pk.goPubKey != nil && pk.goPubKey.X != nil && pk.goPubKey.Y != nil && pk.goPubKey.Curve == pk.alg.curve
+//@ pred ecdsaAccepts(pk, sig, digest) = len(sig) == 64 && 1 <= be32(sig[0:32]) && be32(sig[0:32]) < curveN(pk.alg.curve) && 1 <= be32(sig[32:64]) && be32(sig[32:64]) < curveN(pk.alg.curve) && ecdsaEq(pk.alg.curve, pk.goPubKey.X.v, pk.goPubKey.Y.v, digest, be32(sig[0:32]), be32(sig[32:64]))
+
+//@ func (*pubKeyECDSA).verifyHash mode int props C11 C09
+//@ requires pkECDSAOK(pk)
+//@ assigns nothing
+//@ ensures [accepts-exactly] result1 == nil && result0 == ecdsaAccepts(pk, sig, seqid(h))
+
+//@ func (*pubKeyECDSA).Verify mode int props C11 C09 C19
+//@ requires pkECDSAOK(pk)
+//@ assigns ghost(alg)
+//@ ensures [nil-hasher] alg == nil ==> !result0 && result1 == errNilHasher
+//@ ensures [hasher-size] alg != nil && alg.osize < 32 ==> !result0 && iserr(result1, *invalidHasherSizeError)
+//@ ensures [accepts-exactly] alg != nil && alg.osize >= 32 ==> result1 == nil && result0 == ecdsaAccepts(pk, sig, hout(alg.cfg, seqid(data)))
+//@ ensures [key-untouched] unchanged(pk.goPubKey) && unchanged(pk.alg)
+
+//@ pred skECDSAOK(sk) = sk != nil && ecdsaAlgoOK(sk.alg) && sk.goPrKey != nil && sk.goPrKey.D != nil && sk.goPrKey.Curve == sk.alg.curve
+
+//@ func (*prKeyECDSA).signHash mode int props C11 C09
+//@ requires skECDSAOK(sk)
+//@ assigns nothing
+//@ ensures [signature-is-r-then-s-padded-to-32-bytes] result1 == nil ==> len(result0) == 64 && fresh(result0) && 1 <= be32v(result0[0:32]) && be32v(result0[0:32]) < curveN(sk.alg.curve) && 1 <= be32v(result0[32:64]) && be32v(result0[32:64]) < curveN(sk.alg.curve) && ecdsaSigOf(sk.alg.curve, sk.goPrKey.D.v, seqid(h), be32v(result0[0:32]), be32v(result0[32:64]))
+//@ ensures [error] result1 != nil ==> len(result0) == 0
+
+//@ func (*prKeyECDSA).Sign mode int props C11 C09 C19
+//@ requires skECDSAOK(sk)
+//@ assigns ghost(alg)
+//@ ensures [nil-hasher] alg == nil ==> len(result0) == 0 && result1 == errNilHasher
+//@ ensures [hasher-size] alg != nil && alg.osize < 32 ==> len(result0) == 0 && iserr(result1, *invalidHasherSizeError)
+//@ ensures [signs-the-whole-digest] alg != nil && alg.osize >= 32 && result1 == nil ==> len(result0) == 64 && ecdsaSigOf(sk.alg.curve, sk.goPrKey.D.v, hout(alg.cfg, seqid(data)), be32v(result0[0:32]), be32v(result0[32:64]))
+//@ ensures [key-untouched] unchanged(sk.goPrKey) && unchanged(sk.alg)
